@@ -184,7 +184,10 @@ def load(data, ignore):
             super(Held, self).__init__(*a, **k)
     esc = None
     try:
-        Held(io.BytesIO(data), ignore=ignore)
+        if ignore is None:
+            Held(io.BytesIO(data))          # default arguments: the keyword is really omitted
+        else:
+            Held(io.BytesIO(data), ignore=ignore)
     except BaseException as e:  # noqa
         if isinstance(e, (KeyboardInterrupt, SystemExit, MemoryError)):
             raise
@@ -419,6 +422,8 @@ def run_case(case):
     data = case['xml'].encode('utf-8')
     obs = []
     fails = []
+    from harness.impl.c08 import other_documents_prelude
+    other_documents_prelude()          # other documents of this process on which ignoreErrors() is used
 
     def fail(clause, what):
         sig = 'C07:%s' % clause
